@@ -30,7 +30,8 @@ RULE = ("name and base built from 0-3 segments out of {a, b, x.y, .h, .., ., '',
         "or forced exit at the time limit; enter and exit observed separately; close / reopen / remake calls on the filer "
         "between enter and exit; two doers sharing one filer); a stream gives the Filer a RELATIVE headDirPath (data, ./data, "
         "a/../data, ~/data, ...) and moves the working directory between the calls, with another instance's resources at "
-        "the same relative place under the other working directory (.path must be absolute; .temp is observed after every call, snapshotting after every call (the walk starts 6 directories "
+        "the same relative place under the other working directory; 30 % of the cases use a Filer subclass overriding "
+        "TempPrefix / TempSuffix (.path must be absolute; .temp is observed after every call, snapshotting after every call (the walk starts 6 directories "
         "above the sandbox root, so escapes show up as ../ paths); thorough enumerates all 16 flag sets x all name/base pairs of <= 2 segments; non-trivial "
         "= a dotted segment ('.', '..' or '...'), or temp with filed, extensioned or clean, or a history of >= 2 calls or "
         "with a clearing temp flip")
@@ -95,7 +96,7 @@ def directed():
             for owner in (3, 4, 5):
                 c = with_siblings(mk("x", "b", temp=temp, ext=ext, owner=owner))
                 out.append(dict(c, pre=c["pre"] + [["alt/lt", False]]))
-    return out + directed_histories() + directed_remakes() + directed_ctx() + directed_doers() + directed_rel()
+    return out + directed_histories() + directed_remakes() + directed_ctx() + directed_doers() + directed_rel() + directed_subs()
 
 
 def rand_path(rng):
@@ -327,9 +328,36 @@ def random_history(rng):
     return h
 
 
+SUBS = [{"prefix": "app_", "suffix": "_tmp"}, {"prefix": "app_", "suffix": "_test"}, {"prefix": "hio_", "suffix": "_tmp"},
+        {"prefix": "", "suffix": ""}, {"prefix": "hio_lmdb_", "suffix": "_test"}]
+
+
+def with_sub(rng, c):
+    if rng.random() < 0.3:
+        c = dict(c, sub=rng.choice(SUBS))
+    return c
+
+
+def directed_subs():
+    out = []
+    for sub in SUBS[:3]:
+        for clean, filed, ext in itertools.product([False, True], repeat=3):
+            c = mk("x", "b", temp=True, clean=clean, filed=filed, ext=ext)
+            out.append(dict(c, sub=sub))
+        per = mk("x", "b", filed=True)
+        tmp = mk("x", "b", temp=True, filed=True)
+        out += [dict(hist(tmp, ("close", True)), sub=sub),
+                dict(hist(per, ("reopen", True, None, True, False, False), ("close", True)), sub=sub),
+                dict(hist(tmp, ("doer", None, False)), sub=sub),
+                dict(hist(per, ("close", False), ("doer", True, True, [["close", False]])), sub=sub),
+                dict(with_siblings(tmp), hops=[], ctx={"clear": False, "raise": False}, sub=sub),
+                dict(hist(per, ("reopen", True, None, True, False, False)), ctx={"clear": False, "raise": True}, sub=sub)]
+    return out
+
+
 def generate(rng, tier):
-    out = [random_case(rng) for _ in range(900 if tier == "quick" else 6000)]
-    out += [random_history(rng) for _ in range(300 if tier == "quick" else 3000)]
+    out = [with_sub(rng, random_case(rng)) for _ in range(900 if tier == "quick" else 6000)]
+    out += [with_sub(rng, random_history(rng)) for _ in range(300 if tier == "quick" else 3000)]
     out += [random_rel(rng) for _ in range(150 if tier == "quick" else 1500)]
     if tier == "thorough":
         segs = ["a", "x.y", "..", ".", "", ".h"]
@@ -393,6 +421,11 @@ def run_impl(case):
         HeadDirPath = os.path.join(root, "head")
         AltHeadDirPath = os.path.join(root, "alt")
         TempHeadDir = os.path.join(root, "tmp")
+    sub = case.get("sub")
+    if sub:
+        # a subclass that overrides the naming of its mkdtemp directory (as hio's own Duror / Peer subclasses do)
+        SandboxFiler.TempPrefix = sub["prefix"]
+        SandboxFiler.TempSuffix = sub["suffix"]
 
     filer = None
     cwd_before, home_before = os.getcwd(), os.environ.get("HOME")
